@@ -255,6 +255,21 @@ theorem c11_compare_distinguishes (env : NumEnv) (cs : Bool) :
     · simp only [Json.compare, compareF, Bool.and_eq_false_iff]
       exact Or.inr hall'
 
+/-- [A] The case flag governs BOTH lookups of the object comparison.  An object whose member names
+differ only in letter case (`{"a":1,"A":2}` — only a parser can produce it) has pairwise distinct
+keys for the case-sensitive lookup, so by `c11_tree_roundtrip_partial` it compares equal to its
+duplicate under `case_sensitive = true`, in both argument orders; under `case_sensitive = false` the
+lookup identifies the two keys and the comparison fails (the known duplicate-key behaviour). -/
+theorem c11_compare_case_variant_keys (env : NumEnv) :
+    let t : JVal := .obj [([97], .num (.int 1)), ([65], .num (.int 2))]
+    parseText env [123, 34, 97, 34, 58, 49, 44, 34, 65, 34, 58, 50, 125] = some t ∧
+    UniqKeys true t ∧
+    compare env true (duplicate t) t = true ∧ compare env true t (duplicate t) = true ∧
+    compare env false (duplicate t) t = false := by
+  refine ⟨rfl, ?_, rfl, rfl, rfl⟩
+  simp only [UniqKeys, UniqMembers, List.pairwise_cons]
+  decide
+
 /-- [B, string part] every string literal the printer emits — for ANY byte string, with any text
 after it — is an RFC 8259 `string` for the independent recogniser `Rfc` (all control characters
 escaped, quote and backslash escaped, `\u` followed by four hex digits). -/
